@@ -499,6 +499,59 @@ def rule_align(chk, cls):
                detail_ok='single index array %s' % sorted(idx))
 
 
+def rule_particles_info(chk):
+    """utils.get_particles_info (the description from which create_dummy_particles builds replicas, e.g. on the other ranks of a parallel run) interpreted (E8) on two model
+    arrays with different properties, constants and - for a property of the same name - different type / default / stride: every array's record holds exactly its own
+    properties and constants with its own type, default and stride, and no two records share a dictionary"""
+    from verif_static import emit as EM, absint as AI
+    UT = 'pysph/base/utils.py'
+    fn = M.find_func(M.py(UT), 'get_particles_info')
+    if fn is None:
+        raise AnalysisError('utils.get_particles_info vanished')
+    try:
+        it = EM.interpreter()
+
+        def carr(ty, data=None):
+            return EM.mock(get_c_type=lambda i, a, k, n, e: ty, get_npy_array=lambda i, a, k, n, e: data)
+        lb = lambda v: (lambda i, a, k, n, e: v)          # noqa: E731
+        a1 = EM.mock(name='fluid', properties={'x': carr('double'), 'rho': carr('double'), 'A': carr('double')}, default_values={'x': 0.0, 'rho': 1000.0, 'A': 0.5}, stride={'A': 4},
+                     constants={'c0': carr('double', ('c0',))}, gpu=None, output_property_arrays=['x', 'rho'], get_lb_props=lb(['x', 'rho', 'A']))
+        a2 = EM.mock(name='wall', properties={'x': carr('double'), 'A': carr('int'), 'n': carr('long')}, default_values={'x': 0.0, 'A': 3, 'n': 9}, stride={'A': 2, 'n': 3},
+                     constants={'k': carr('double', ('k',))}, gpu=None, output_property_arrays=['n'], get_lb_props=lb(['x', 'A', 'n']))
+        bad = None
+        for order in ((a1, a2), (a2, a1)):
+            info = EM.call_function(it, UT, 'get_particles_info', list(order))
+            want = {'fluid': ({'x': ('double', 0.0, 1), 'rho': ('double', 1000.0, 1), 'A': ('double', 0.5, 4)}, ['c0'], ['x', 'rho']),
+                    'wall': ({'x': ('double', 0.0, 1), 'A': ('int', 3, 2), 'n': ('long', 9, 3)}, ['k'], ['n'])}
+            if not isinstance(info, dict) or sorted(info) != sorted(want):
+                bad = bad or 'arrays described: %s' % (sorted(info) if isinstance(info, dict) else info,)
+                continue
+            for nm_, (wp, wc, wo) in want.items():
+                rec = info[nm_]
+                pi = rec.get('properties') if isinstance(rec, dict) else None
+                ci_ = rec.get('constants') if isinstance(rec, dict) else None
+                if not isinstance(pi, dict) or sorted(pi) != sorted(wp):
+                    bad = bad or 'the record of `%s` lists the properties %s (the array has %s)' % (nm_, sorted(pi) if isinstance(pi, dict) else pi, sorted(wp))
+                    continue
+                for pn, (ty, df, stv) in wp.items():
+                    r_ = pi[pn]
+                    got = (r_.get('type'), r_.get('default'), r_.get('stride')) if isinstance(r_, dict) else r_
+                    if got != (ty, df, stv) or r_.get('name') != pn:
+                        bad = bad or 'property %s of `%s` is described as (type, default, stride) = %s, the array has %s' % (pn, nm_, got, (ty, df, stv))
+                if not isinstance(ci_, dict) or sorted(ci_) != wc:
+                    bad = bad or 'the record of `%s` lists the constants %s (the array has %s)' % (nm_, sorted(ci_) if isinstance(ci_, dict) else ci_, wc)
+                if rec.get('output_property_arrays') != wo:
+                    bad = bad or 'output arrays of `%s` described as %s' % (nm_, rec.get('output_property_arrays'))
+            if info['fluid'].get('properties') is info['wall'].get('properties') or info['fluid'].get('constants') is info['wall'].get('constants'):
+                bad = bad or 'the records of the two arrays share one dictionary'
+        chk.decide(bad is None, 'replica-description', 'get_particles_info:each-array-its-own-record:model-run', node=fn, file=UT, func='get_particles_info',
+                   detail_bad='for two model arrays fluid(x, rho, A double stride 4; constant c0) and wall(x, A int stride 2, n long stride 3; constant k): %s - create_dummy_particles builds '
+                              'replicas with the wrong properties / types / strides' % bad,
+                   detail_ok='two model arrays in both orders: each record has exactly its own properties (type, default, stride), constants and output list')
+    except (AI.Unsupported, AI.Raised) as e:
+        chk.undecided('replica-description', 'get_particles_info:each-array-its-own-record:model-run', node=fn, file=UT, func='get_particles_info', detail='not interpretable: %s' % e)
+
+
 def rule_pickle(chk, cls):
     """pickling decided on a model array (E8, lowered Cython): __reduce__ hands out, for every property, a record {name, type, data: the whole array, default, stride} and for
     every constant {name, data}, under the keys that __setstate__ reads; __setstate__ replays every record through add_property / add_constant (whose parameters the record
@@ -609,6 +662,15 @@ def rule_tag_scans(chk, cls):
                 if isinstance(a.value, ast.Attribute) and a.value.attr == 'data' and isinstance(a.value.value, ast.Name) and a.value.value.id in tagvars:
                     tagvars.add(U(tg))
         for cmp_ in ast.walk(fn):
+            if isinstance(cmp_, ast.Compare) and not isinstance(cmp_.left, ast.Subscript):
+                # the vectorised form of the scan: the whole tag array compared at once (`numpy.flatnonzero(tags.get_npy_array() == tag)`) covers every particle by construction
+                l_ = cmp_.left
+                whole = (isinstance(l_, ast.Name) and l_.id in tagvars) or (isinstance(l_, ast.Call) and isinstance(l_.func, ast.Attribute) and l_.func.attr == 'get_npy_array'
+                                                                              and isinstance(l_.func.value, ast.Name) and l_.func.value.id in tagvars)
+                if whole:
+                    n += 1
+                    chk.holds('tag-scan-covers-every-particle', '%s@vectorised' % name, node=cmp_, file=PA, func=name, detail='whole tag array compared: %s' % U(cmp_)[:60])
+                continue
             if not (isinstance(cmp_, ast.Compare) and isinstance(cmp_.left, ast.Subscript)):
                 continue
             base = cmp_.left.value
@@ -1296,6 +1358,7 @@ def main(chk):
     rule_coverage(chk, cls)
     rule_align(chk, cls)
     rule_pickle(chk, cls)
+    rule_particles_info(chk)
     rule_replicate(chk, cls)
     rule_tag_scans(chk, cls)
     rule_storage(chk, cls)
